@@ -31,7 +31,23 @@ SPECS = sorted(OT.SPECS)
 NOGRU = [f for f in SPECS if f != 'gru']
 
 
+FIXED_GUARD_OFF = [   # products over data with exactly one zero in a lane, the whole program inside mem_guard_off (always present)
+    ("prod", [3], [2.0, 0.0, 3.0], {}),
+    ("prod", [2, 3], [2.0, 0.0, 3.0, 1.5, 4.0, 0.5], {"axis": 1}),
+    ("prod", [2, 3], [2.0, 1.0, 3.0, 0.0, 4.0, 0.5], {"axis": 0, "keepdims": True}),
+    ("cumprod", [4], [2.0, 3.0, 0.0, 1.5], {}),
+    ("prod", [2, 2], [0.0, 2.0, 3.0, 0.0], {"axis": 1}),
+]
+
+
 def gen_case(rng, cfg, idx):
+    if idx < 3 * len(FIXED_GUARD_OFF) and idx % 3 == 2:
+        fn, shp, data, kw = FIXED_GUARD_OFF[idx // 3]
+        prog = [{"k": "leaf", "out": "x1", "kind": "tensor", "dtype": "float64", "shape": shp, "data": data, "constant": None, "layout": "C", "guard_off": True},
+                {"k": "call", "out": "p2", "fn": fn, "a": [["r", "x1"]], "kw": dict(kw), "sp": "mg", "guard_off": True},
+                {"k": "call", "out": "L3", "fn": "sum", "a": [["r", "p2"]], "sp": "mg", "guard_off": True},
+                {"k": "backward", "tgt": "L3", "seed": None, "guard_off": True}]
+        return {"kind": "op:" + fn, "prog": prog, "L": "L3"}
     if idx % 40 == 7:
         shp = B.rand_shape(rng, 3, 3, 1)
         vals = lambda: B.rand_values(rng, shp).ravel().tolist()
@@ -79,7 +95,9 @@ def gen_case(rng, cfg, idx):
         c = C05.gen_case(rng, {"nstmts": cfg["nstmts"], "two_epoch": "random"}, idx)
         return None if c is None else {"kind": "hist", "prog": c["prog"], "L": c["L"]}
     fn = "gru" if idx % 48 == 32 else NOGRU[(idx // 3) % len(NOGRU)]   # gru (numba JIT) only on indices that land on one shard
-    c = C02.gen_single(rng, fn, k=rng.randrange(6))
+    zero_fn = fn in C02.ZERO_FNS
+    # (products: mostly the variant with exact zeros among the factors, whose backward pass patches a working copy of the operand)
+    c = C02.gen_single(rng, fn, k=rng.choice([1, 4, 1, 4, 0, 2]) if zero_fn else rng.randrange(6))
     if c is None:
         return None
     prog = c["prog"]
@@ -87,7 +105,7 @@ def gen_case(rng, cfg, idx):
         s = prog[-1]["seed"]
         prog = prog[:-1] + [{"k": "leaf", "out": "__g", "kind": "array", "dtype": s[1], "shape": s[2], "data": s[3], "layout": "C"},
                             {"k": "backward", "tgt": prog[-1]["tgt"], "seed": ["r", "__g"]}]
-    if rng.random() < 0.25:
+    if rng.random() < (0.5 if zero_fn else 0.25):
         # the whole program with the memory guard switched off: the library can then write into operand arrays unhindered, so nothing but
         # its own discipline keeps inputs intact
         prog = [dict(st, guard_off=True) for st in prog]
